@@ -329,7 +329,7 @@ def run(ctx):
                     r.hits.append(Hit('monitor', 'C05:doc_pre:%s:%s' % (key, b),
                                       'call %s respects its documented precondition (phase %s) but was rejected with invalid_status in history %s'
                                       % (key, b, h.hist_str()[:300]), dict(rp, op=o, phase=b)))
-                if not doc_ok and a != 'E':
+                if not doc_ok and a[:1] not in ('E', 'X'):
                     r.hits.append(Hit('monitor', 'C05:pre_not_enforced:%s:%s' % (key, b),
                                       'call %s violates its documented precondition (phase %s) but answered %s in history %s'
                                       % (key, b, a, h.hist_str()[:300]), dict(rp, op=o, phase=b)))
